@@ -264,6 +264,11 @@ func SynthArgs(recv reflect.Value, name string, mt reflect.Type, variant int) []
 		if et.Kind() == reflect.Slice && et.Elem().Kind() == reflect.String { // Partial(keys ...[]string)
 			args = append(args, reflect.ValueOf([]string{"a"}))
 		}
+		if et == tZodCheck { // ...core.ZodCheck
+			if c, ok := checkArg(et, variant); ok && !c.IsNil() {
+				args = append(args, c)
+			}
+		}
 	}
 	return args
 }
@@ -289,6 +294,9 @@ func synthOne(recv reflect.Value, name string, t reflect.Type, variant int) refl
 			}
 			return reflect.ValueOf(&[]any{nestedSample(variant)}[0]).Elem()
 		}
+	}
+	if v, ok := checkArg(t, variant); ok { // core.ZodCheck / []core.ZodCheck parameters: a value from the check catalogue (checks.go)
+		return v
 	}
 	switch {
 	case t == tRegexp:
